@@ -27,6 +27,7 @@ import lena.core
 from lena.core import Split, Source, Sequence, FillComputeSeq, FillRequestSeq, LenaStopFill
 from lena.flow import Zip
 
+WD = [2.0]      # watchdog seconds; a reported non-termination is re-checked with 8 s before it counts (busy machine)
 KIND_NAME = {"src": "source", "fc": "fill_compute", "fr": "fill_request", "seq": "sequence"}
 PRE = ("seq", "tuple")            # forms with a map before the accumulator
 POST = ("seq", "tuple_post")      # forms with a map after the accumulator
@@ -447,7 +448,7 @@ def check_run(descs, bufsize, copy_buf, flow_json, mode="iter", prefix=None):
     def make(ds, bs=bufsize, lg=None):
         return Split([build(d, str(i), log if lg is None else lg) for i, d in enumerate(ds)], bufsize=bs, copy_buf=copy_buf)
     try:
-        with watchdog(2):
+        with watchdog(WD[0]):
             s = make(descs)
     except Timeout:
         return ("Split.__init__/non-termination", call)
@@ -464,7 +465,7 @@ def check_run(descs, bufsize, copy_buf, flow_json, mode="iter", prefix=None):
     flow = dec(flow_json)
     call += ".run(%s %s)" % (mode, short(flow, 80))
     try:
-        with watchdog(2):
+        with watchdog(WD[0]):
             got = list(s.run(feed(flow, mode)))
     except Timeout:
         return ("Split.run/non-termination", call)
@@ -516,7 +517,7 @@ def check_indep(descs, copy_buf, flow_json):
     for bs in [None] + list(range(1, len(flow0) + 2)) + [1000]:
         log = []
         try:
-            with watchdog(2):
+            with watchdog(WD[0]):
                 s = Split([build(d, str(i), log) for i, d in enumerate(descs)], bufsize=bs, copy_buf=copy_buf)
                 got = list(s.run(iter(dec(flow_json))))
         except Timeout:
@@ -553,7 +554,7 @@ def check_common(kind, descs, copy_buf, flow_json, rounds):
     flow, rflow = dec(flow_json), dec(flow_json)
     mutating = any(d["form"] == "tuple_mut" for d in descs)
     try:
-        with watchdog(2):
+        with watchdog(WD[0]):
             if kind == "src":
                 got = list(s())
                 exp = [r for b in refs for r in b.src()]
@@ -601,7 +602,7 @@ def check_common(kind, descs, copy_buf, flow_json, rounds):
         # "with the same meaning": as a FillCompute element it gives what run gives on the same flow
         s2 = Split([build(d, str(i), []) for i, d in enumerate(descs)], copy_buf=copy_buf)
         try:
-            with watchdog(2):
+            with watchdog(WD[0]):
                 got_run = list(s2.run(iter(dec(flow_json))))
         except Exception as e:
             got_run = "%s" % type(e).__name__
@@ -633,7 +634,7 @@ def check_zip(kind, descs, fields, flow_json, rounds):
     if not (callable(getattr(z, "fill", None)) and callable(getattr(z, name, None))):
         return ("Zip.common/%s-methods-missing" % KIND_NAME[kind], "%s has no fill/%s" % (call, name))
     try:
-        with watchdog(2):
+        with watchdog(WD[0]):
             got, exp, pos = [], [], 0
             for n in rounds:
                 for v, rv in zip(flow[pos:pos + n], rflow[pos:pos + n]):
@@ -675,10 +676,17 @@ def tame(descs):
 
 
 def rp(fn):
-    return lambda *a: bool(fn(*a))
+    def replay(*a):
+        WD[0] = 8.0
+        return bool(fn(*a))
+    return replay
 
 
-REPLAYERS = {"run": rp(check_run), "indep": rp(check_indep), "common": rp(check_common), "zip": rp(check_zip)}
+CHECKS = {}
+
+
+CHECKS.update({"run": check_run, "indep": check_indep, "common": check_common, "zip": check_zip})
+REPLAYERS = dict((k, rp(f)) for k, f in CHECKS.items())
 
 
 class TooManyTimeouts(Exception):
@@ -686,7 +694,13 @@ class TooManyTimeouts(Exception):
 
 
 def report(R, res, fn, args):
-    if res and "non-termination" in res[0] and R.fail_counts.get(res[0], 0) >= 8:
+    if res and "non-termination" in res[0]:          # a stall of a busy machine is not a hang: look again, patiently
+        WD[0] = 8.0
+        try:
+            res = CHECKS[fn](*args)
+        finally:
+            WD[0] = 2.0
+    if res and "non-termination" in res[0] and R.fail_counts.get(res[0], 0) >= 2:
         R.fail(res[0], res[1], {"fn": fn, "args": args}, {"fn": fn, "args": args})
         raise TooManyTimeouts(res[0])
     R.check(res is None, res[0] if res else "", res[1] if res else "", {"fn": fn, "args": args}, {"fn": fn, "args": args})
@@ -733,7 +747,7 @@ def body(R):
     try:
         scopes(R)
     except TooManyTimeouts as e:
-        R.fail("harness/aborted-after-repeated-non-termination", "run stopped after 9 reports of %s; the remaining scopes were not executed" % e)
+        R.fail("harness/aborted-after-repeated-non-termination", "run stopped after 3 reports of %s; the remaining scopes were not executed" % e)
 
 
 def scopes(R):
